@@ -1,5 +1,7 @@
 import JmesVerif.Lemmas.Errors
 import JmesVerif.Model.Interp
+import JmesVerif.Lemmas.Positions
+import JmesVerif.Lemmas.Signature
 /-!
 # C12 — errors are classified and located truthfully
 
@@ -40,6 +42,45 @@ theorem C12_render (reason : String) (expr : List Char) (line column : Nat) :
         (expr ++ '\n' :: (List.replicate column ' ' ++ ['^', '\n']))) := by
   simp only [render, errorLocation_spec, caret]
 
+/-- every token position the lexer reports is a character boundary inside the expression
+(the end marker sits at its end) -/
+theorem C12_token_positions (cs : List Char) (ts : List PT) (h : tokenize cs = .ok ts) :
+    ∀ pt ∈ ts, IsBoundary cs pt.1 := tokenize_positions cs ts h
+
+/-- a lexical error is reported at a character boundary inside the expression -/
+theorem C12_lex_error_position (cs : List Char) (e : LexErr) (h : tokenize cs = .error e) :
+    IsBoundary cs e.pos := tokenize_error_position cs e h
+
+/-- every offset in the public tree is a token position (or 0); a call's offset is the position of
+its `(` token and a slice's offset the position of its closing `]` -/
+theorem C12_parse_offsets (ts : List PT) (e : Expr) (a : Ast) (h : parseTokens ts = .ok (e, a)) :
+    (∀ o ∈ a.offsets, o = 0 ∨ o ∈ ts.map Prod.fst) ∧
+    (∀ o ∈ a.callOffsets, (o, Tok.lparen) ∈ ts) ∧
+    (∀ o ∈ a.sliceOffsets, (o, Tok.rbracket) ∈ ts) := parse_offsets ts e a h
+
+/-- a syntax error is reported at a token position (or 0), hence at a character boundary -/
+theorem C12_parse_error_offset (ts : List PT) (p : Nat) (h : parseTokens ts = .error (.at p)) :
+    p = 0 ∨ p ∈ ts.map Prod.fst := parse_error_offset ts p h
+
+/-- arity and type errors are runtime errors carrying the offset of the call being validated
+(which `C12_parse_offsets` shows to be its opening parenthesis) -/
+theorem C12_validate_error_offset (s : Sig) (args : List Val) (off : Nat) (e : EvalErr)
+    (h : s.validate args off = .error e) : ∃ r, e = .runtime r off := validate_error_offset s args off e h
+
+/-- an unknown function is reported at the offset of that call; an invalid slice at the slice's offset -/
+theorem C12_unknown_function_offset (rt : Registry) (fuel : Nat) (d : Val) (o : Nat) (name : String)
+    (args : List Ast) (off : Nat) (vs : List Val) (prev : Nat)
+    (ha : interpAll rt fuel d args off = .ok (vs, prev)) (hn : rt.get name = none) :
+    interp rt (fuel + 1) d (.function o name args) off = .error (.runtime (.unknownFunction name) o) := by
+  simp [interp, ha, hn]
+
+theorem C12_invalid_slice_offset (rt : Registry) (fuel : Nat) (d : Val) (o : Nat) (a b : Option Int) (step : Int)
+    (hs : step = 0) (off : Nat) :
+    interp rt (fuel + 1) d (.slice o a b step) off = .error (.runtime .invalidSlice o) := by
+  subst hs
+  rw [interp.eq_def]
+  simp
+
 /-! non-vacuity -/
 example : lineCol "a\néx.~".toList 6 = (1, 3) := by decide
 example : lineOf "a\néx".toList = 1 ∧ colOf "a\néx".toList = 2 := by decide
@@ -49,3 +90,10 @@ end JmesVerif
 #print axioms JmesVerif.C12_linecol
 #print axioms JmesVerif.C12_linecol_boundary
 #print axioms JmesVerif.C12_render
+#print axioms JmesVerif.C12_token_positions
+#print axioms JmesVerif.C12_lex_error_position
+#print axioms JmesVerif.C12_parse_offsets
+#print axioms JmesVerif.C12_parse_error_offset
+#print axioms JmesVerif.C12_validate_error_offset
+#print axioms JmesVerif.C12_unknown_function_offset
+#print axioms JmesVerif.C12_invalid_slice_offset
